@@ -14,7 +14,10 @@ from families.loadcommon import *
 PROPERTY = "C17"
 FAMILY = "load"
 LEAN_MODULE = "ElfioVerif.Props.C17"
-THEOREMS = ["ElfioVerif.C17.read_prefix", "ElfioVerif.C17.isolatedRead_prefix"]
+THEOREMS = ["ElfioVerif.C17.read_prefix", "ElfioVerif.C17.isolatedRead_prefix",
+            "ElfioVerif.C17.secLoad_prefix_hdr", "ElfioVerif.C17.secLoad_prefix", "ElfioVerif.C17.segLoad_prefix",
+            "ElfioVerif.C17.exposes_only_file_bytes", "ElfioVerif.C17.exposes_only_file_bytes_requests",
+            "ElfioVerif.C17.prefix_load_safe"]
 SITES = ["conv", "load_s", "sec32_load", "sec64_load", "seg32_load", "seg64_load"]
 RULE = ("(image, k): object 0 loads the complete well-formed image, object 1 its prefix of length k, both "
         "observed identically; images from tools/elfspec.py in 4 configurations and small bundled examples; "
